@@ -9,7 +9,8 @@ A term is a tuple:
   ("atom", text)           python str (code points)
   ("cmp", name, [args])    lists are ('cmp', '.', [H, T]) chains ending in ('atom', '[]')
 """
-import struct, re
+import struct, re, sys
+sys.setrecursionlimit(max(sys.getrecursionlimit(), 20000))   # long lists are nested cons cells
 
 NIL = ("atom", "[]")
 
